@@ -416,6 +416,40 @@ def projection_complex(m, elem, rng):
     return relerr(y, x), {'what': 'whole mesh (complex dtype)', 'elem': type(elem).__name__, 'N': int(basis.N)}
 
 
+def projection_complex_parts(m, elem, rng, boundary=True):
+    """complex-valued functions of the space projected with dtype= onto a boundary part (FacetBasis.project, with and
+    without facets=) and onto a subdomain (CellBasis.project of a restricted basis and with elements=): both the real and
+    the imaginary part must come back"""
+    from skfem import Basis, FacetBasis
+    whole = Basis(m, elem)
+    worst, what = 0.0, []
+    nt = m.t.shape[1]
+    sub = np.sort(rng.permutation(nt)[:int(rng.integers(1, nt + 1))])
+    I = whole.get_dofs(elements=sub).flatten()
+    x = np.zeros(whole.N, dtype=complex)
+    x[I] = rng.uniform(-1, 1, len(I)) + 1j * rng.uniform(-1, 1, len(I))
+    bs = Basis(m, elem, elements=sub)
+    for label, y in (('subdomain basis', bs.project(bs.interpolate(x), dtype=np.complex128)),
+                     ('elements= argument', whole.project(whole.interpolate(x), elements=sub, dtype=np.complex128))):
+        e = relerr(np.asarray(y), x)
+        what.append((label, e))
+        worst = max(worst, e)
+    if boundary:
+        bf = m.boundary_facets()
+        F = np.sort(bf[rng.permutation(len(bf))[:int(rng.integers(1, len(bf) + 1))]])
+        J = whole.get_dofs(facets=F).flatten()
+        xb = np.zeros(whole.N, dtype=complex)
+        xb[J] = rng.uniform(-1, 1, len(J)) + 1j * rng.uniform(-1, 1, len(J))
+        fb = FacetBasis(m, elem, facets=F)
+        for label, y in (('boundary basis', fb.project(fb.interpolate(xb), dtype=np.complex128)),
+                         ('facets= argument', fb.project(fb.interpolate(xb), facets=F, dtype=np.complex128))):
+            e = relerr(np.asarray(y), xb)
+            what.append((label, e))
+            worst = max(worst, e)
+    return worst, {'what': 'complex data with dtype= (' + ', '.join(f'{k}: {v:.1e}' for k, v in what) + ')',
+                   'elem': type(elem).__name__, 'cells': sub.tolist(), 'N': int(whole.N)}
+
+
 def projection_subdomain(m, elem, rng, via_argument=False, intorder=None):
     """basis restricted to a cell subset (tind) — or whole basis with project(elements=...) and a function supported on I"""
     from skfem import Basis
